@@ -76,6 +76,17 @@ CHECKS['C13'] = dict(level=MC, engine='EventCodec', design='DESIGN.md §3 C13; c
    note='Events above 64 KiB / buffer resizing are C18; TCP transport and arm64 not covered. Four crash defects found here are fixed in /repo and kept as regression cases.',
    technique='TLA+ byte-level parser/window spec + TLC over a case catalogue x all cuts; per-read replay on the real parser, handshake and epoll loop with state comparison')
 
+CHECKS['C15'] = dict(level=MC, engine='StreamPool', design='DESIGN.md §3 C15; checks/streampool_NOTES.md',
+   text='StreamPool.tla has one action per API call or environment step (Get, Put, Send, Write, Read, CloseHeld, PeerReply, PeerClose, SessClose, Teardown, PoolDrain, Rebuild) with Exclusive, Fresh, PutOutcome (action properties), NoLeak, CountExact, TableShape and CapOK; TLC checks five exhaustive configurations (callers 1-2, pool capacity 1-2; ~21k states). Spec -> code: every cover history is replayed on a real SessionManager.GetStream/PutBack, streamPool and Stream over socket-less real sessions (including pool.close, session replacement, Session.Close and the posted teardown), comparing stream state, table membership, unread count, fallback flag, write buffer, ring contents, holders and sessions after each step; Fresh/Exclusive/PutOutcome/NoLeak are evaluated on the real objects. Code -> spec: free-running concurrent callers record invoke/return histories which Trace_StreamPool validates for linearisability with TLC.',
+   note='Interleavings inside Get/Put rest on the free-running runs + linearisability check, not on the scheduler; the background rebuild goroutine and hot-restart pool swap belong to C16/C17. Three defects found here are fixed in /repo and kept as regression witnesses.',
+   technique='TLA+ spec at API-call granularity + TLC exhaustive; cover-history replay on the real session manager with state conformance; linearisability check of recorded concurrent histories by trace validation')
+
+HR = dict(level=MC, engine='HotRestart', design='DESIGN.md §3 C16/C17; checks/hotrestart_NOTES.md',
+   note='Trace validation needs the verif-tagged hooks committed in /repo (MANIFEST.hooks.source_commits); when they are absent the check skips that part with a note. The 2 s hot-restart time-outs are real time; rebuildInterval is shortened in-package. Known findings (late ack, stale watcher, restart event after Close / on a closed session, two rounds in one epoch) are classified, pruned and their witnesses staged every run.',
+   technique='TLA+ protocol spec with leads-to properties + TLC exhaustive; trace validation of real executions recorded through build-tagged hooks; staged fault scenarios on real listeners/session managers')
+CHECKS['C16'] = dict(HR, text='HotRestart.tla models Listener.HotRestart/checkHotRestart/resetState, handleHotRestartAck, handleSessionManagerHotRestart, SessionManager.checkHotRestart, the per-pool watcher/rebuild goroutine and SessionManager.Close with messages in flight, time-outs, session loss and a new server that is not listening yet; TLC checks that listener and manager leave the hot-restart state (leads-to under fairness of the time-outs), that completion puts every pool on a session of the announced epoch connected to the new server, that GetStream always has a live or rebuilding session behind it, and that stale epochs change nothing. Binding B3: executions of real Listeners and SessionManagers (the repository\'s hot-restart scenario and fault-injecting drivers: delayed acks, new server not up, sessions killed mid-way, repeated restarts) are recorded through hooks placed under the protecting locks and validated against the spec by TLC (every recorded step must be a spec step; invariants evaluated on every state of the real execution); TLC counterexamples are staged on the real code as witnesses.')
+CHECKS['C17'] = dict(HR, text='Same module as C16, for the session-rebuild loop: lost ~> replaced when the server is reachable, GetStream fails (never hangs) in between, a pool swapped by hot restart is not rebuilt a second time, nothing is created after SessionManager.Close. Real executions with sessions/servers killed and restarted at controlled points (rebuild interval shortened) are recorded through the hooks and validated against the spec; outcomes of GetStream over time, identity/health of the session behind each pool and a goroutine census after Close are checked on the real objects.')
+
 PENDING = {}
 
 def main():
@@ -107,7 +118,7 @@ def main():
         'setup_cmd': 'cd /verif && ./setup.sh',
         'hooks': {'guard': 'verif', 'enable': 'go test -tags verif (hooks are add-only calls to verifTrace, compiled to an empty function without the tag); the lock-free modules need no hooks: scheduling points are injected at check time with go test -overlay',
                   'baseline_off_cmd': 'cd /repo && go test -vet=off -count=1 -timeout 25m ./...',
-                  'source_commits': [], 'add_only': True},
+                  'source_commits': ['b52bc24'], 'add_only': True},
         'engines': [{'name': n, 'path': '/verif/specs/%s.tla' % n, 'serves_properties': ps,
                      'kind_free_text': 'TLA+ module checked by TLC, bound to the code by checks/%s.py + harness/zz_%s_test.go' % (n.lower(), n.lower())}
                     for n, ps in engines.items()],
